@@ -194,6 +194,11 @@ where
     fn update_A(&mut self, A: &CscMatrix<T>) {
         _update_values(&mut self.ldlsolver, &mut self.KKT, &self.map.A, &A.nzval);
     }
+
+    #[cfg(clarabel_verif)]
+    fn verif_direct(&self) -> Option<&DirectLDLKKTSolver<T>> {
+        Some(self)
+    }
 }
 
 impl<T> DirectLDLKKTSolver<T>
@@ -435,4 +440,37 @@ fn _fill_signs(signs: &mut [i8], m: usize, n: usize, map: &LDLDataMap) {
         signs[p..(p + thisp)].copy_from_slice(thismap.Dsigns());
         p += thisp;
     }
+}
+
+// read-only accessors for the verification harness
+#[cfg(clarabel_verif)]
+impl<T> DirectLDLKKTSolver<T>
+where
+    T: FloatT,
+{
+    pub fn verif_KKT(&self) -> &CscMatrix<T> {
+        &self.KKT
+    }
+    pub fn verif_dsigns(&self) -> &[i8] {
+        &self.dsigns
+    }
+    pub(crate) fn verif_map(&self) -> &LDLDataMap {
+        &self.map
+    }
+    pub fn verif_dims(&self) -> (usize, usize, usize) {
+        (self.m, self.n, self.p)
+    }
+    pub fn verif_regularizer(&self) -> T {
+        self.diagonal_regularizer
+    }
+    /// (values of the LDL backend's internal (permuted) copy, map from KKT entries into it)
+    pub fn verif_ldl_copy(&self) -> Option<(Vec<T>, Vec<usize>)> {
+        self.ldlsolver.verif_internal_copy()
+    }
+}
+#[cfg(clarabel_verif)]
+pub(crate) fn verif_fill_signs(m: usize, n: usize, map: &LDLDataMap) -> Vec<i8> {
+    let mut signs = vec![1_i8; m + n + map.sparse_maps.pdim()];
+    _fill_signs(&mut signs, m, n, map);
+    signs
 }
